@@ -91,6 +91,9 @@ add("enum-skips-nil-data","C14","values.go","\t\tif valuesEqual(data, enumValue)
 add("fraction-equals-integer","C14","values.go","\treturn isExactInt64(f) && int64(f) == i\n","\treturn int64(f) == i\n","EQUAL-TABLE:valuesEqual:exact")
 add("negative-equals-unsigned","C16","values.go","\treturn i >= 0 && uint64(i) == u\n","\treturn uint64(i) == u\n","NARROW:intEqualsUint", quick=False)
 add("unique-items-by-deep-equal-only","C14","values.go","\t\t\tif valuesEqual(v, u) {\n\t\t\t\treturn errors.DuplicateItems(path, in)","\t\t\tif reflect.DeepEqual(v, u) {\n\t\t\t\treturn errors.DuplicateItems(path, in)","PURE:UniqueItems:numeric-equality", quick=False)
+add("self-parent-not-looked-up","C07","spec.go","\tif viaRef || (schn != nm && schn != \"\") {","\tif (viaRef && schn != nm) || (schn != nm && schn != \"\") {","REF-WALK:(*SpecValidator).validateCircularAncestry:recursion")
+add("alias-loop-unbounded","C07","spec.go","\t\tif _, again := followed[ref]; again {\n\t\t\treturn append(ancs, ref), res\n\t\t}\n","","REF-WALK:(*SpecValidator).validateCircularAncestry:loop", quick=False)
+add("options-appended-in-place","C05","schema.go","\topts := make([]Option, 0, len(options)+2)\n\topts = append(opts, options...)\n\topts = append(opts, WithRecycleValidators(true), withRecycleResults(true))\n","\topts := append(options, WithRecycleValidators(true), withRecycleResults(true))\n","VARIADIC-APPEND:AgainstSchema:options", quick=False)
 json.dump(C, open('/verif/tables/controls.json','w'), indent=1)
 import os
 for c in C:
